@@ -4,7 +4,9 @@
 // (the observer chain of a proxy object built by decryptor/mysql|postgresql proxyFactory.New),
 // one worker process per SQL dialect (the dialect is a process-wide global): (a) every
 // valid-case statement literal of Acra's own parser tests, (i) quoted identifiers over a menu
-// of hostile byte strings in every identifier position (idents.go), (o) the statements Acra's
+// of hostile byte strings and over the identifier alphabet (every printable ASCII character
+// that is not a letter or digit - '@', '$', '#', '.', ... - in every place of a name) in every
+// identifier position (idents.go, idents_alphabet.go), (o) the statements Acra's
 // observers rewrite - searchable comparisons, tokenized comparisons, INSERT/UPDATE literals of
 // protected columns - over statement kind x left side x operator x right side x context
 // (obs_*.go, observers.go), (b) every derivation of a compact DML grammar up to a depth, (c)
@@ -18,7 +20,10 @@
 // by an independent lexer with MySQL's own rules (sqlgen/mysqllex.go), are the same sequence
 // (the tree comparison alone cannot see a literal Acra's tokenizer decodes differently from
 // the database and prints back from the decoded form); for (i) the same for quoted
-// identifiers (identLex). For (o): the text the proxy would send parses, and its tree equals
+// identifiers (identLex), and no quoted identifier that MySQL does not read as one name
+// without quotes ([0-9a-zA-Z$_], bytes >= 0x80) stands in the sent text outside quotes
+// (printedBareCheck: Acra's tokenizer may read such a name back as one name - the tree
+// comparison is then blind - while the database does not). For (o): the text the proxy would send parses, and its tree equals
 // the tree of the received text once the documented substitutions have been undone at the
 // sites where the configuration permits them (obs_my.go on sqlparser trees, obs_pg.go on
 // pg_query trees).
@@ -107,7 +112,7 @@ func main() {
 	if r.Thorough() {
 		obsRule = obsRuleThorough
 	}
-	r.Rule("state = one distinct statement text in one dialect configuration (mysql, mysql-ansi, postgresql), only statements the strict parser accepts as DML count: (a) every valid-case literal of sqlparser/parse_test.go + precedence_test.go (extracted with go/ast at run time); (i) identifiers: every template of the identifier-position list (one per identifier position of the grammar: column, qualified column, table/alias/database qualifier, table, aliases with and without AS, derived-table alias, function name, star qualifier, USING, index hint, partition, collation, INSERT/UPDATE/DELETE targets, RETURNING, ORDER/GROUP BY, columns inside special expression nodes) x every entry of the hostile-byte menu (lone 0xF1/0xFF/continuation bytes, truncated and overlong sequences, valid 2/3/4-byte UTF-8, U+FFFD, each quote character inside, space, dot, backslash, upper case, keywords, placeholder- and comment-like, control byte, leading digit) x every quote style (\"..\", `..`; the string-quoted alias forms '..' and MySQL \"..\" in the alias positions), and the two-identifier templates x pairs of menu entries (quick: a third of the pairs); (o) observers: the statement space of obs_space.go run through the query observers of a real proxy object - comparison statements: " + obsRule + "; assignment statements: INSERT VALUES (feature: plain/returning/on duplicate key update/on conflict/replace/ignore x column-list variant x rows: one, two, row longer than the column list) and INSERT SET and UPDATE SET (14 target spellings/features) x target column of every class x every value form; (b) every derivation of the sqlgen grammar: every statement skeleton (all combinations of optional clauses of SELECT/UNION/INSERT/UPDATE/DELETE); every atom (identifier/literal/placeholder/cast spelling) in every statement context and at every operand position of every expression form, every pair of atoms around two-operand forms (quick: core forms); every operator chain of length <= 2 over all forms in every context (quick: 7 main contexts); every full operator tree of depth 2 over the core forms; every chain of length 3 over the core forms (quick: WHERE and select-list contexts; thorough: every context) and of length 4 (thorough: WHERE context); (c) every textually distinct expression sub-tree of every seed and of the identifier statements added to the corpus (quick: one per root signature) spliced - non-atomic ones inside ParenExpr - into every expression slot of every such statement of the same dialect; (d) every literal (in an expression position) of every such statement and of every atom-in-context statement substituted through encryptor/mysql.UpdateExpressionValue with every member of the byte menu (MySQL dialects). Phases run in the order a, i, o, b, c, d; each gets the share of the remaining wall budget that its weight has among the phases still to run. transition = one Parse or String call or one OnQuery of the observer chain; trace = one statement taken through parse-print-parse-print or through the observer chain. distinct_nontrivial = distinct (dialect, AST parent>child edge with operators, outcome), (dialect, slot, spliced root, outcome), (dialect, slot, literal kind before->after, menu entry), (dialect, identifier template, quote style, menu entry) and (dialect, statement kind, operator/feature, left class, right class, context, substitutions found) observations")
+	r.Rule("state = one distinct statement text in one dialect configuration (mysql, mysql-ansi, postgresql), only statements the strict parser accepts as DML count: (a) every valid-case literal of sqlparser/parse_test.go + precedence_test.go (extracted with go/ast at run time); (i) identifiers: every template of the identifier-position list (one per identifier position of the grammar: column, qualified column, table/alias/database qualifier, table, aliases with and without AS, derived-table alias, function name, star qualifier, USING, index hint, partition, collation, INSERT/UPDATE/DELETE targets, RETURNING, ORDER/GROUP BY, columns inside special expression nodes) x every entry of the hostile-byte menu (lone 0xF1/0xFF/continuation bytes, truncated and overlong sequences, valid 2/3/4-byte UTF-8, U+FFFD, each quote character inside, space, dot, backslash, upper case, keywords, placeholder- and comment-like, control byte, leading digit) x every quote style (\"..\", `..`; the string-quoted alias forms '..' and MySQL \"..\" in the alias positions), and the two-identifier templates x pairs of menu entries (quick: a third of the pairs); identifier alphabet: every template x every quote style x each of the 33 printable ASCII characters that are not letters or digits (space ! \" # $ % & ' ( ) * + , - . / : ; < = > ? @ [ \\ ] ^ _ ` { | } ~) x its place in the name (a<c>b, <c>a, a<c>, <c> alone, <c><c>a; thorough: also a<c><c>b, every ordered pair of two different characters a<c1><c2>b in every template and string-quoted alias template, and the two-identifier templates over pairs of names a<c1>b, a<c2>b); the single-identifier statements of both menus run before the pair statements; (o) observers: the statement space of obs_space.go run through the query observers of a real proxy object - comparison statements: " + obsRule + "; assignment statements: INSERT VALUES (feature: plain/returning/on duplicate key update/on conflict/replace/ignore x column-list variant x rows: one, two, row longer than the column list) and INSERT SET and UPDATE SET (14 target spellings/features) x target column of every class x every value form; (b) every derivation of the sqlgen grammar: every statement skeleton (all combinations of optional clauses of SELECT/UNION/INSERT/UPDATE/DELETE); every atom (identifier/literal/placeholder/cast spelling) in every statement context and at every operand position of every expression form, every pair of atoms around two-operand forms (quick: core forms); every operator chain of length <= 2 over all forms in every context (quick: 7 main contexts); every full operator tree of depth 2 over the core forms; every chain of length 3 over the core forms (quick: WHERE and select-list contexts; thorough: every context) and of length 4 (thorough: WHERE context); (c) every textually distinct expression sub-tree of every seed and of the identifier statements added to the corpus (quick: one per root signature) spliced - non-atomic ones inside ParenExpr - into every expression slot of every such statement of the same dialect; (d) every literal (in an expression position) of every such statement and of every atom-in-context statement substituted through encryptor/mysql.UpdateExpressionValue with every member of the byte menu (MySQL dialects). Phases run in the order a, i, o, b, c, d; each gets the share of the remaining wall budget that its weight has among the phases still to run (weights i 3, o 5, b 9, c 6, d 3; time a phase does not use goes to the later ones, so a cap cuts the large enumerations b, c, d and o, not the identifier phase). transition = one Parse or String call or one OnQuery of the observer chain; trace = one statement taken through parse-print-parse-print or through the observer chain. distinct_nontrivial = distinct (dialect, AST parent>child edge with operators, outcome), (dialect, slot, spliced root, outcome), (dialect, slot, literal kind before->after, menu entry), (dialect, identifier template, quote style, menu entry), for the alphabet (dialect, identifier template, quote style, place of the character, written quoted or bare in the sent text) and (dialect, character, place, quote style, quoted or bare), and (dialect, statement kind, operator/feature, left class, right class, context, substitutions found) observations")
 	tierDepth := 3
 	if r.Thorough() {
 		tierDepth = 4
@@ -120,6 +125,7 @@ func main() {
 		"observers phase: the observer chain is the one decryptor/mysql|postgresql proxyFactory.New builds (taken from the proxy object by reflection); OnQuery is called as the proxies call it (object made from the query text; on an error or changed=false the received text is what goes to the database - nothing is re-serialised, nothing to check); prepared-statement protocol paths (OnBind, MySQL PREPARE ... FROM '<text>') are not driven here",
 		"observers oracle: the substitutions listed in obs_my.go / obs_pg.go are undone in the tree of the sent text only at the sites the statement's generator marked (from the configuration it wrote itself) and only in the documented form; then the trees must be equal. The property leaves open which comparisons get the search-hash form: two searchable columns under an operator outside the =/<> families (t1.s < t2.s) may both be wrapped in substr(x, 1, 33) when the operator stays; substr(<searchable column>, 1, 33) written by the client counts as the column; the literal of a comparison with any protected column may change its value",
 		"whether a substituted literal opens to the received value for the column's readers (the values themselves) is C04/C09/C10/C11's subject and is not repeated here; an ON CONFLICT / ON DUPLICATE KEY assignment the observers leave in clear is not a C13 matter",
+		"identifier phase, database's reading of names (MySQL dialects): an unquoted name is read over [0-9a-zA-Z$_] and bytes >= 0x80 (MySQL reference manual, Schema Object Names); a quoted identifier of the received text made of these only (no leading digit) may be sent without quotes, any other must keep quotes (which quote character is the printer's choice). In PostgreSQL the AST keeps the quotes of identifiers; where it does not (collation name) a name of lower-case letters, digits and underscore (no leading digit) may be sent bare. A round-trip failure of a statement whose sent text already holds a name outside its quotes is reported under the class of that name (…/with-identifier-printed-bare:<character>/<leading|inner>), not under the node where the trees part",
 		"forwarded text of full proxy sessions (C04) is not re-checked here")
 	r.Finish()
 }
